@@ -38,13 +38,16 @@ static std::string section_at(const std::string& s, size_t pos) { const char* na
 static void gen_vtk_faults(int seedset, const std::string& vtk, const std::string& xml, bool thorough, std::vector<Case>& out, size_t token_stride = 1) {
     size_t body = 0; for (int k = 0; k < 4; k++) body = vtk.find('\n', body) + 1;    // the four header lines are free text except the version line
     auto toks = tokens_of(vtk, 0);
+    long npoints = 0; { size_t kw = vtk.find("POINTS"); if (kw != std::string::npos) npoints = atol(vtk.c_str() + kw + 6); }
     for (size_t ti = 0; ti < toks.size(); ti += token_stride) { const TokSpan& t = toks[ti]; std::string sec = t.b < body ? "header" : section_at(vtk, t.b); std::string w = sec + "#" + std::to_string(ti);
         // replacing a point COORDINATE by another finite number yields a well-formed file describing a (possibly huge, spiky) valid geometry
         bool coord_token = false; if (sec == "POINTS") { size_t kw = vtk.rfind("POINTS", t.b); auto after = tokens_of(vtk.substr(kw, t.b - kw), 0); coord_token = after.size() >= 3; }
         auto mut = [&](const std::string& kind, const std::string& repl, bool del) { Case c; c.seedset = seedset; c.file = "vtk"; c.kind = kind; c.where = sec; c.xml = xml; c.vtk = vtk.substr(0, t.b) + (del ? "" : repl) + vtk.substr(t.e);
             if (coord_token && !del) { char* e; double v = strtod(repl.c_str(), &e); c.valid_geometry_edit = (*e == 0 && std::isfinite(v)); } out.push_back(c); };
         mut("token-deleted", "", true); mut("token-duplicated", vtk.substr(t.b, t.e - t.b) + " " + vtk.substr(t.b, t.e - t.b), false);
-        for (const char* m : MENU) mut(std::string("token-replaced-by-") + m, m, false); }
+        for (const char* m : MENU) mut(std::string("token-replaced-by-") + m, m, false);
+        // index-like tokens (everything but point coordinates): the first values that do not exist / that wrap the integer types the readers use
+        if (!coord_token) { for (const std::string& m : {std::to_string(npoints), std::to_string(npoints + 1), std::string("32768"), std::string("65535"), std::string("2147483647"), std::string("2147483648")}) mut("token-replaced-by-" + m + (m == std::to_string(npoints) ? "(=number of points)" : m == std::to_string(npoints + 1) ? "(=number of points+1)" : ""), m, false); } }
     // keyword lines: remove / duplicate / move to the end
     size_t ls = 0; while (ls < vtk.size()) { size_t le = vtk.find('\n', ls); if (le == std::string::npos) le = vtk.size(); std::string line = vtk.substr(ls, le - ls); bool kw = !line.empty() && isalpha((unsigned char)line[0]) && ls >= body;
         if (kw) { std::string name = line.substr(0, line.find(' ')); Case c; c.seedset = seedset; c.file = "vtk"; c.where = name; c.xml = xml;
@@ -139,7 +142,7 @@ static void explore(Result& R) {
         if (!any) usleep(3000); }
     std::error_code ec; fs::remove_all(g_root, ec);
     R["evaluations"] = done; R["states"] = done; R["transitions"] = done; R["distinct_nontrivial"] = (long)msgs.size() + 2; R["traces_validated_against_impl"] = done; R["cases_generated"] = (long)cases.size(); R["unsafe_skipped"] = unsafe; R["distinct_validation_messages_reached"] = (long)msgs.size();
-    R.strings["rule"] = "a case = one valid seed (two-octahedra VTK + XML; quad-cube VTK + XML with initial triangulation) with 0 or 1 deviation from the complete alphabet {every token (of the polygonal seed: every third token in the quick tier) deleted / duplicated / replaced by each of -1, 0, 99, 4294967295, 99999999999999999999, abc, 1e999, nan, 3.5; every keyword line removed / duplicated / moved to the end; truncation at every 8th (thorough: every) byte; every XML element removed / duplicated / renamed / emptied / self-closed / text replaced by each menu value} (thorough: pairs over a reduced alphabet); each case runs the real main binary (ASan+UBSan) in its own directory; distinct_nontrivial = number of distinct diagnostics reached + the two valid seeds";
+    R.strings["rule"] = "a case = one valid seed (two-octahedra VTK + XML; quad-cube VTK + XML with initial triangulation) with 0 or 1 deviation from the complete alphabet {every token (of the polygonal seed: every third token in the quick tier) deleted / duplicated / replaced by each of (index-like tokens also: the number of points, that number + 1, 32768, 65535, 2147483647, 2147483648) -1, 0, 99, 4294967295, 99999999999999999999, abc, 1e999, nan, 3.5; every keyword line removed / duplicated / moved to the end; truncation at every 8th (thorough: every) byte; every XML element removed / duplicated / renamed / emptied / self-closed / text replaced by each menu value} (thorough: pairs over a reduced alphabet); each case runs the real main binary (ASan+UBSan) in its own directory; distinct_nontrivial = number of distinct diagnostics reached + the two valid seeds";
     R.assumptions = {"acceptable outcomes: exit 0, or exit 1 with the message of a std::exception printed by main, or start-up completed (the solver announced its output folder) whatever the accepted parameters then do to the run; anything else (signal, std::terminate, sanitizer report, > 40 s wall / 20 s CPU, > 1 GiB resident before start-up completes) is a violation", "a point coordinate replaced by another finite number gives a well-formed file with a valid (possibly huge) geometry: time/memory limits are not judged for those cases, crashes and sanitizer reports are", "mutated output-folder values are checked to stay inside the private directory before launch (unsafe_skipped counts the ones skipped)"};
 }
 static int replay(const Replay& rp, Result& R) { Case c; c.vtk = unesc_nl(rp.get("vtk")); c.xml = unesc_nl(rp.get("xml")); if (!output_path_is_safe(c.xml)) { printf("unsafe output path, not run\n"); return 0; } std::string dir = "build/run/C17-replay-" + std::to_string(getpid()); fs::create_directories(dir); dir = fs::absolute(dir).string(); Outcome o = run_one(c, dir); printf("outcome: %s %s\n", o.cls.c_str(), o.detail.c_str());
